@@ -1,4 +1,5 @@
 (* C12 — flushed data survives truncation; truncated output is never misread. *)
+From V Require Import Bzip2.Common Bzip2.SpecR Bzip2.SpecW Bzip2.Cut.
 From V Require Import Flate.Spec XFlate.Reader XFlate.RoundTripStmt XFlate.RoundTripAll XFlate.FlushPoints.
 From V Require Import XFlate.Index XFlate.Writer XFlate.Mono.
 From V Require Import Base.Prelude Base.Prog Base.ProgThms Flate.Spec Flate.Thms Bzip2.Common Bzip2.SpecR Bzip2.SpecW Bzip2.Thms XFlate.Witness.
@@ -90,3 +91,14 @@ Theorem xflate_flushed_data_survives_truncation : forall deflate, K1 deflate ->
          prefix_of (wops_data ops1) (ir_out (inflate (firstn k (w_sink s2))))).
 Proof. exact flush_point_recoverable. Qed.
 Print Assumptions xflate_flushed_data_survives_truncation.
+
+(* bzip2: every proper non-empty prefix of a Writer-produced stream, any level, any data, fails
+   with exactly UnexpectedEOF having delivered a prefix of the data *)
+Theorem bzip2_cut_output_never_misread : forall level data k,
+  1 <= level <= 9 -> (forall b, In b data -> b < 256) ->
+  (0 < k < length (bzip2_encode level data))%nat ->
+  bz_err (bzip2_decode (firstn k (bzip2_encode level data))) = Some EUEOF /\
+  prefix_of (bz_out (bzip2_decode (firstn k (bzip2_encode level data)))) data /\
+  bz_used (bzip2_decode (firstn k (bzip2_encode level data))) = N.of_nat k.
+Proof. exact bzip2_cut_is_ueof. Qed.
+Print Assumptions bzip2_cut_output_never_misread.
